@@ -71,6 +71,7 @@ X_LB = q("text:line-break")
 X_NOTE = q("text:note")
 X_ANNOT = q("office:annotation")
 X_ANNOT_END = q("office:annotation-end")
+X_BINARY = q("office:binary-data")
 A_TC = q("text:c")
 
 
@@ -139,6 +140,9 @@ def decode_duration(s: str):
     return -td if sign else td
 
 
+_TEXT_NS = "{%s}" % NSMAP["text"]
+
+
 def raw_text(el) -> str:
     """Raw (no white-space collapsing) readable text of a paragraph-like
     element: character data + text:s / text:tab / text:line-break expanded;
@@ -161,7 +165,10 @@ def raw_text(el) -> str:
                 out.append("\t")
             elif c.tag == X_LB:
                 out.append("\n")
-            elif c.tag in (X_NOTE, X_ANNOT, X_ANNOT_END):
+            elif c.tag in (X_NOTE, X_ANNOT, X_ANNOT_END, X_BINARY) or not c.tag.startswith(_TEXT_NS):
+                # not inline text of this paragraph: notes, annotations, frames,
+                # shapes, titles/descriptions of objects ... (their own paragraphs,
+                # if any, are texts of their own); the tail still belongs to us
                 pass
             else:
                 walk(c)
@@ -205,7 +212,10 @@ def odf_text(el) -> str:
                 toks.append(("l", "\t"))
             elif c.tag == X_LB:
                 toks.append(("l", "\n"))
-            elif c.tag in (X_NOTE, X_ANNOT, X_ANNOT_END):
+            elif c.tag in (X_NOTE, X_ANNOT, X_ANNOT_END, X_BINARY) or not c.tag.startswith(_TEXT_NS):
+                # not inline text of this paragraph: notes, annotations, frames,
+                # shapes, titles/descriptions of objects ... (their own paragraphs,
+                # if any, are texts of their own); the tail still belongs to us
                 pass
             else:
                 walk(c)
@@ -560,3 +570,42 @@ def read_package(src) -> Package:
             p.parts[name] = zf.read(info)
             p.compress[name] = info.compress_type
     return p
+
+
+# --------------------------------------------------------------------------
+# text views of a whole part (C11)
+# --------------------------------------------------------------------------
+
+
+def paragraphs_text(root) -> list:
+    """odf_text of every text:p / text:h of a part, in document order (a
+    paragraph nested in a note / frame / annotation of another paragraph is
+    listed on its own too)"""
+    root = to_element(root)
+    return [(el.tag.rsplit("}", 1)[1], odf_text(el)) for el in root.iter(X_P, X_H)]
+
+
+def tag_attr_multiset(root, skip_tags=()) -> dict:
+    """multiset of (tag, sorted attributes) over all elements"""
+    root = to_element(root)
+    out = {}
+    for el in root.iter():
+        if not isinstance(el.tag, str) or el.tag in skip_tags:
+            continue
+        k = (el.tag, tuple(sorted(el.attrib.items())))
+        out[k] = out.get(k, 0) + 1
+    return out
+
+
+def significant_text(root) -> list:
+    """character data of elements that are NOT paragraphs-like (e.g. dc:title,
+    meta:keyword, config items), white-space-stripped: indentation must not
+    leak into them either"""
+    root = to_element(root)
+    out = []
+    for el in root.iter():
+        if not isinstance(el.tag, str) or len(el):
+            continue
+        if el.text and el.text.strip():
+            out.append((el.tag, el.text))
+    return out
